@@ -66,6 +66,17 @@ theorem toC_checkLet (name : Bytes) : toC (checkLetE name) = checkLet name := by
   unfold checkLetE checkLet
   split <;> rfl
 
+theorem toC_checkLoopFunc (name : Bytes) (args : ExprList) :
+    toC (checkLoopFuncE name args) = checkLoopFunc args := by
+  funext st
+  unfold checkLoopFuncE checkLoopFunc
+  cases loopArg args with
+  | none => rfl
+  | some key =>
+    simp only [toC, bind, StateT.bind, get, getThe, MonadStateOf.get, StateT.get, pure, Except.pure, Except.bind,
+      Option.bind]
+    cases isLoopVar st.vars key <;> rfl
+
 theorem toC_declare (name : Bytes) (isLet : Bool) : toC (declareE name isLet) = declare name isLet := rfl
 
 section
@@ -93,7 +104,9 @@ mutual
     | .dataRef _ key acc => by
       unfold checkExprE checkExpr
       simp only [toC_bind, toC_visitKey, toC_get, toC_leaveScope, toC_checkAccesses acc]
-    | .func _ _ args => by unfold checkExprE checkExpr; exact toC_checkExprs args
+    | .func _ name args => by
+      unfold checkExprE checkExpr
+      simp only [toC_bind, toC_ite, toC_pure, toC_checkLoopFunc, toC_checkExprs args]
     | .list _ items => by unfold checkExprE checkExpr; exact toC_checkExprs items
     | .map _ items => by unfold checkExprE checkExpr; exact toC_checkMapItems items
     | .not _ a => by unfold checkExprE checkExpr; exact toC_checkExpr a
